@@ -529,7 +529,7 @@ end Layers
 
 structure Shard where
   series : KvStore := {}                     -- tags hash → series id, bucket = metric id
-  seqCache : Nat → Option Nat := fun _ => none  -- sequenceCache (LRU, assumed not to evict)
+  seqCache : Nat → Option Nat := fun _ => none  -- sequenceCache (LRU; eviction / expiry = `Shard.evictSeq`, `FOp.evictSeq`)
   minv : Layers (Nat × Nat) := {}            -- metricInverted: (metric id, series id)
   fwd : Layers (Nat × Nat × Nat) := {}       -- forward: (tag key id, tag value id, series id)
   inv : Layers (Nat × Nat) := {}             -- inverted: (tag value id, series id)
@@ -573,6 +573,12 @@ def flushStep (sh : Shard) : Nat → Shard
 
 def recover (sh : Shard) : Shard :=
   { series := sh.series.recover, minv := sh.minv.recover, fwd := sh.fwd.recover, inv := sh.inv.recover }
+
+/-- `sequenceCache` (an `expirable.LRU` with 100000 entries and a one-hour TTL) drops the entry of metric `m`:
+eviction by capacity or expiry by time, at any moment. The next `createSeriesID m` takes the miss branch
+(`metricInverted.getSeriesIDs`: kv family ∪ mutable ∪ immutable). -/
+def evictSeq (sh : Shard) (m : Nat) : Shard :=
+  { sh with seqCache := fun j => if j = m then none else sh.seqCache j }
 
 end Shard
 
@@ -985,6 +991,7 @@ inductive FOp
   | op (o : Op)                       -- any operation of the sequential history model (crashes, reopen, failed metadata flushes included)
   | indexFlushFault (shard k : Nat)   -- one shard's real `Flush()` during which step `k` fails (k ≥ 4: no fault)
   | metricLim (nb ns name : Nat)      -- `GenMetricID` under namespace / metric-name limits (may be refused)
+  | evictSeq (shard m : Nat)          -- one shard's LRU `sequenceCache` drops metric `m` (capacity eviction / TTL expiry)
   deriving Repr
 
 /-- `steps` / `abort`: order and control flow of `metricIndexDatabase.Flush` (regenerated facts, see IdAssignCfg) -/
@@ -992,6 +999,7 @@ def fstep (c : Cfg) (steps : List Nat) (nd : Node) : FOp → Node
   | .op o => (step c nd o).1
   | .indexFlushFault sh k => (nd.indexFlushFault c.indexFlushAborts steps sh k).1
   | .metricLim nb ns name => (nd.genMetricLim c nb ns name).1
+  | .evictSeq sh m => nd.setShard sh ((nd.shards sh).evictSeq m)
 
 def frun (c : Cfg) (steps : List Nat) : Node → List FOp → Node
   | nd, [] => nd
